@@ -72,13 +72,13 @@ func panicRules(roots []string) func(p *Prog, r *Report) {
 
 func init() {
 	register("C01",
-		"Structural clauses of 'XML decodes to the documented Map under all options' decided on xmlToMapParser: INFL.cover (attribute keys depend on attrPrefix, lowerCase, snakeCaseKeys and the attribute name; element keys on lowerCase/snakeCaseKeys; text on trimRunes and xmlEscapeCharsDecoder and passes through cast with the decoder's flag; text-key choice on decodeSimpleValuesAsMap; _seq only under includeTagSeqNum), INFL.castflag (structure independent of the cast flag), TABLE.keys (shared key variables, no literals), DECODE.sibling (every decoded child is stored on every path; repeated siblings are append(existing, new)), PANIC.nil/assert/idx on the decoder. Not decided: equality of the produced Map with the documented one (trimming results, collisions, case-folding values)."+levelNote,
+		"Structural clauses of 'XML decodes to the documented Map under all options' decided on xmlToMapParser: INFL.cover (attribute keys depend on attrPrefix, lowerCase, snakeCaseKeys and the attribute name; element keys on lowerCase/snakeCaseKeys; text on trimRunes and xmlEscapeCharsDecoder and passes through cast with the decoder's flag; text-key choice on decodeSimpleValuesAsMap; _seq only under includeTagSeqNum), INFL.castflag (structure independent of the cast flag), TABLE.keys (shared key variables, no literals), DECODE.sibling (every decoded child is stored on every path; repeated siblings are append(existing, new)), PAIR.seqnum (the _seq number is a running counter advanced with every child), PANIC.nil/assert/idx on the decoder. Not decided: equality of the produced Map with the documented one (trimming results, collisions, case-folding values)."+levelNote,
 		[]string{"documented option semantics transcribed in rules_infl.go"},
 		ruleInflCover,
 		func(p *Prog, r *Report) { ruleInflCastFlag(p, r) },
 		ruleTableKeys,
 		func(p *Prog, r *Report) { ruleDecodeSibling(p, r, []string{"mxj.xmlToMapParser"}) },
-		ruleSeqCover, ruleCastParsers,
+		ruleSeqCover, ruleCastParsers, rulePairSeqNum,
 		panicRules(grpMapDecode))
 
 	register("C02",
@@ -146,9 +146,10 @@ func init() {
 		})
 
 	register("C07",
-		"Structural clauses of ValuesForPath exactness: PAIR.count (result is ret[:cnt] with cnt == len(ret)), WALK.progress (each recursion consumes exactly one segment; values are appended only when the path is exhausted), WALK.collect (collecting helpers are not recursive), ALIAS.reuse (no result buffer shares the array of a slice still being ranged over faster than it is consumed), WRAP.compose for ValueForPath / ValueForPathString / Exists (first value / non-empty of the plural form), PANIC.idx/assert on the indexed-path wrapper and the path parser, PRESENCE.commaok (whether a node has a key is decided by the comma-ok lookup, never by comparing the value with nil: null is a value). Not decided: that the returned multiset is the denoted one."+levelNote,
+		"Structural clauses of ValuesForPath exactness: PAIR.count (result is ret[:cnt] with cnt == len(ret)), WALK.progress (each recursion consumes exactly one segment; values are appended only when the path is exhausted), WALK.collect (collecting helpers are not recursive), ALIAS.reuse (no result buffer shares the array of a slice still being ranged over faster than it is consumed), WRAP.compose for ValueForPath / ValueForPathString / Exists (first value / non-empty of the plural form), PANIC.idx/assert on the indexed-path wrapper and the path parser, PRESENCE.commaok (whether a node has a key is decided by the comma-ok lookup, never by comparing the value with nil: null is a value), ITER.fresh (each parsed path segment is built from that segment only: no index or array flag left over from the previous one). Not decided: that the returned multiset is the denoted one."+levelNote,
 		nil,
 		func(p *Prog, r *Report) { rulePairCount(p, r, []string{"mxj.Map.oldValuesForPath"}) },
+		func(p *Prog, r *Report) { ruleIterFresh(p, r, []string{"mxj.parsePath"}) },
 		func(p *Prog, r *Report) {
 			in := map[string]bool{}
 			for _, f := range p.scopeFuncs(r, "PRESENCE.commaok", []string{"mxj.Map.ValuesForPath", "mxj.Map.ValueForPath", "mxj.Map.Exists"}) {
@@ -171,12 +172,13 @@ func init() {
 		panicRules([]string{"mxj.Map.ValuesForPath", "mxj.Map.ValueForPath", "mxj.Map.ValueForPathString", "mxj.Map.Exists"}))
 
 	register("C08",
-		"Structural clauses of key search and sub-key filters: WALK.total (hasKey and hasKeyPath visit every map entry and list member), WALK.collect, PAIR.count (ValuesForKey), INFL.filter (sub-keys reach only the predicate; no sub-keys means no filtering; the predicate is read-only), INFL.crumb (child paths never contain the searched key), INFL.metric (shortest path by segment count), INFL.cover (sub-key specifications are split on fieldSep), EFFECT.recv for the query methods, PRESENCE.commaok. Not decided: set equality between ValuesForKey, PathsForKey and ValuesForPath; the predicate's truth table."+levelNote,
+		"Structural clauses of key search and sub-key filters: WALK.total (hasKey and hasKeyPath visit every map entry and list member), WALK.collect, PAIR.count (ValuesForKey), INFL.filter (sub-keys reach only the predicate; no sub-keys means no filtering; the predicate is read-only), INFL.crumb (child paths never contain the searched key), INFL.metric (shortest path by segment count), INFL.cover (sub-key specifications are split on fieldSep), EFFECT.recv for the query methods, PRESENCE.commaok, PRED.local (the sub-key predicate rejects a map only inside the loop over the conditions). Not decided: set equality between ValuesForKey, PathsForKey and ValuesForPath; the predicate's truth table."+levelNote,
 		nil,
 		func(p *Prog, r *Report) {
 			ruleWalkTotal(p, r, []walkerSpec{{"mxj.hasKey", nil}, {"mxj.hasKeyPath", nil}})
 		},
 		func(p *Prog, r *Report) { ruleWalkCollect(p, r, []string{"mxj.hasKey"}) },
+		rulePredLocal,
 		func(p *Prog, r *Report) {
 			in := map[string]bool{}
 			for _, f := range p.scopeFuncs(r, "PRESENCE.commaok", []string{"mxj.Map.ValuesForKey", "mxj.Map.PathsForKey", "mxj.Map.PathForKeyShortest"}) {
@@ -195,12 +197,22 @@ func init() {
 		panicRules([]string{"mxj.Map.ValuesForKey", "mxj.Map.ValueForKey", "mxj.Map.PathsForKey", "mxj.Map.PathForKeyShortest"}))
 
 	register("C09",
-		"Structural clauses of LeafNodes: WALK.total (getLeafNodes visits every entry and member; skips depend only on the no-attribute option and the attribute prefix; the scalar arm appends exactly one LeafNode carrying the node), WRAP.compose + FWD (LeafPaths/LeafValues are projections of LeafNodes and forward their option), PANIC.idx/assert on the walker. Not decided: that each path resolves to exactly its value."+levelNote,
+		"Structural clauses of LeafNodes: WALK.total (getLeafNodes visits every entry and member; skips depend only on the no-attribute option and the attribute prefix; the scalar arm appends exactly one LeafNode carrying the node), WRAP.compose + FWD (LeafPaths/LeafValues are projections of LeafNodes and forward their option), PANIC.idx/assert on the walker, ATTR.guard (a key is tested against the attribute prefix only where the prefix is known non-empty), PRESENCE.commaok on the walker and on the path resolution it must agree with (a null leaf is a value). Not decided: that each path resolves to exactly its value."+levelNote,
 		nil,
 		func(p *Prog, r *Report) {
 			ruleWalkTotal(p, r, []walkerSpec{{"mxj.getLeafNodes", []string{"param:noattr", "load(mxj.attrPrefix)"}}})
 		},
 		ruleWalkLeaf,
+		func(p *Prog, r *Report) {
+			ruleAttrGuard(p, r, p.scopeFuncs(r, "ATTR.guard", []string{"mxj.Map.LeafNodes"}), "leaf walker")
+		},
+		func(p *Prog, r *Report) {
+			in := map[string]bool{}
+			for _, f := range p.scopeFuncs(r, "PRESENCE.commaok", []string{"mxj.Map.LeafNodes", "mxj.Map.ValuesForPath"}) {
+				in[p.Name(f)] = true
+			}
+			rulePresence(p, r, func(n string) bool { return in[n] }, "leaf walker and path resolution")
+		},
 		func(p *Prog, r *Report) {
 			ruleWrapCompose(p, r, []wrapSpec{{"mxj.Map.LeafPaths", []string{"mxj.Map.LeafNodes"}, true}, {"mxj.Map.LeafValues", []string{"mxj.Map.LeafNodes"}, true}})
 		},
@@ -251,11 +263,15 @@ func init() {
 		panicRules(grpProject))
 
 	register("C13",
-		"Structural clauses of reader-schedule independence: IO.read (every Read result is consumed as the io.Reader contract prescribes: count tested, data used only when n > 0, data before error, (0,nil) retried), IO.bytereader (xml.NewDecoder always gets an io.ByteReader; adaptors read one byte at a time), IO.tee (the raw capture receives exactly the bytes handed to the decoder; Raw functions return the sink's bytes), LOOP.handler (handlers get the decoded value, false stops reading), WRAP.fileloop, PANIC.nil on the raw JSON reader, ERR.path. Not decided: equality of decoded Maps with direct decoding; the hand-written JSON scanner's quote/escape logic."+levelNote,
+		"Structural clauses of reader-schedule independence: IO.read (every Read result is consumed as the io.Reader contract prescribes: count tested, data used only when n > 0, data before error, (0,nil) retried), IO.bytereader (xml.NewDecoder always gets an io.ByteReader; adaptors read one byte at a time), IO.tee (the raw capture receives exactly the bytes handed to the decoder; Raw functions return the sink's bytes), LOOP.handler (handlers get the decoded value, false stops reading), IO.nobuffer (the caller's reader is never wrapped in a reader that reads ahead), WRAP.fileloop, PANIC.nil on the raw JSON reader, ERR.path. Not decided: equality of decoded Maps with direct decoding; the hand-written JSON scanner's quote/escape logic."+levelNote,
 		[]string{"io.Reader / io.ByteReader / io.Writer contracts as documented"},
 		func(p *Prog, r *Report) { ruleIORead(p, r, p.PkgFuncs("mxj")) },
 		func(p *Prog, r *Report) { ruleIOByteReader(p, r, p.PkgFuncs("mxj")) },
 		func(p *Prog, r *Report) { ruleIORetry(p, r, p.PkgFuncs("mxj")) },
+		func(p *Prog, r *Report) {
+			ruleIoNoBuffer(p, r, p.scopeFuncs(r, "IO.nobuffer", []string{"mxj.NewMapXmlReader", "mxj.NewMapXmlReaderRaw", "mxj.NewMapXmlSeqReader", "mxj.NewMapXmlSeqReaderRaw",
+				"mxj.NewMapJsonReader", "mxj.NewMapJsonReaderRaw", "mxj.HandleXmlReader", "mxj.HandleXmlReaderRaw", "mxj.HandleJsonReader", "mxj.HandleJsonReaderRaw"}), "stream decoders")
+		},
 		ruleIOTee, ruleJsonEscape,
 		func(p *Prog, r *Report) {
 			ruleLoopHandler(p, r, []string{"mxj.HandleXmlReader", "mxj.HandleXmlReaderRaw", "mxj.HandleJsonReader", "mxj.HandleJsonReaderRaw"})
